@@ -103,6 +103,11 @@ class C17(Check):
             cases_by_kind={k: sum(1 for c in cases if c["in"]["kind"] == k) for k in ("cipher", "pass", "params", "mgr")},
         )
 
+    def explained_by_known(self, case):
+        # the model follows the code on the recorded finding too (HMAC key
+        # block), so a model/implementation mismatch is never explained by it
+        return False
+
     # -- rendering -------------------------------------------------------
     def render_case(self, c):
         i, o = c["in"], c["obs"]
@@ -125,9 +130,10 @@ class C17(Check):
             if o.get("created") != "ok":
                 return "CCreateFail (%s, %s, %s, %s)" % (_hexbytes(i.get("pass", "")), cZ(i["N"]), cZ(i["r"]), cZ(i["p"]))
             return ("CPass {| pc_pw := %s; pc_salt := %s; pc_digest := %s; pc_n := %s; pc_r := %s; pc_p := %s; "
-                    "pc_marshalled := %s; pc_exact := %d; pc_restart := %d; pc_near := %s; pc_lens := %s |}" % (
+                    "pc_marshalled := %s; pc_zero_ok := %s; pc_exact := %d; pc_restart := %d; pc_near := %s; pc_lens := %s |}" % (
                         _hexbytes(i.get("pass", "")), _hexbytes(o["salt"]), _hexbytes(o["digest"]),
-                        cZ(i["N"]), cZ(i["r"]), cZ(i["p"]), _hexbytes(o["marshalled"]), o["exact"], o["restart"],
+                        cZ(i["N"]), cZ(i["r"]), cZ(i["p"]), _hexbytes(o["marshalled"]), cbool(o.get("zero_ok", False)),
+                        o["exact"], o["restart"],
                         clist(["(%s, %d, %d)" % (_hexbytes(n["pw"]), n["zeroed"], n["restart"]) for n in o.get("near", [])]),
                         clist(["(%s, %d)" % (_nat(a), b) for a, b in o.get("lens", [])])))
         if k == "params":
